@@ -174,6 +174,36 @@ example : SomeEntryRejects guards
   left
   decide
 
+/-- **`declare_type` decided by the regenerated guards, end to end** (every
+    runtime reachable by a history of adds, every type item): the registration
+    of `type n = <Rust type id>` in `scope` succeeds iff NO registered entry
+    trips a guard regenerated from the source and the name is free in its own
+    scope or that of a pre-declared primitive — and then the runtime is
+    extended by exactly that declaration and that entry (`TOp.apply`). -/
+theorem declare_type_ok_iff_no_guard_reachable (lex : Name → Lex) (prims : List (Name × TyId))
+    (others : List Name) (hone : ∀ p ∈ prims, ∀ q ∈ prims, p.2 = q.2 → p.1 = q.1)
+    (libs : List Items) (t : TOp) (st' : St) :
+    declareType Cfg.fixed t.scope t.n t.id (session Cfg.fixed lex (St.init prims others) libs).1 = .ok st' ↔
+      (¬ SomeEntryRejects guards (session Cfg.fixed lex (St.init prims others) libs).1 t.scope t.n t.id ∧
+        ((session Cfg.fixed lex (St.init prims others) libs).1.decls t.nm = none ∨
+          ∃ d, (session Cfg.fixed lex (St.init prims others) libs).1.decls t.nm = some d ∧ d.kind = .prim)) ∧
+      st' = t.apply (session Cfg.fixed lex (St.init prims others) libs).1 := by
+  rw [declare_type_guards_as_modelled_reachable lex prims others hone libs]
+  generalize (session Cfg.fixed lex (St.init prims others) libs).1 = st
+  have h := TOp.run_ok_iff t st st'
+  unfold TOp.run at h
+  rw [h]
+  unfold TOp.free TOp.nm
+  cases ht : st.types t.id <;> cases hn : st.typeNames ⟨t.scope, t.n⟩ <;> simp
+
+/-- non-vacuity: after the history that registers `Meters`, another Rust type
+    under a free name in a sibling module is registered -/
+example : ∃ st', declareType Cfg.fixed [2] 6 8
+    (session Cfg.fixed (fun _ => ⟨some (some .ident), false, true⟩) (St.init harnessPrims [4, 5])
+      [.cons (.module 9 (.cons (.type 6 7) .nil)) .nil]).1 = .ok st' :=
+  ⟨_, (declare_type_ok_iff_no_guard_reachable _ _ _ harnessPrims_one_name _ ⟨[2], 6, 8⟩ _).2
+    ⟨⟨by rw [declare_type_guards_as_modelled_reachable _ _ _ harnessPrims_one_name]; decide, Or.inl (by decide)⟩, rfl⟩⟩
+
 /-! ## non-vacuity, and what a narrowed guard does -/
 
 /-- a runtime with `Meters` (Rust type 7) registered in module `[1]` under the name 5 -/
